@@ -31,8 +31,11 @@ OPEN_STATEMENTS = [
     '(qubit_term_matrix_sound, coordinate_extraction_sound, coo_assembly_sound, qubit_sparse_sound; jw_ladder_sound, '
     'jw_term_matrix_sound, jw_sparse_sound); the tensor dispatch (get_fermion_operator) belongs to C08 and is '
     'covered here by the oracle against the operator built from the tensors by the checker',
-    'matvec_sound (matvec_term_sound + matvec_linear), diagonal_term_sound and parallel_matvec_sound are proved at the '
-    'level stated in Properties/C06.lean (per term resp. per entry); diagonal_sound covers the sum over the terms',
+    'matvec_sound is proved for the whole operator in matrix form (every entry = sum over basis states of the Spec '
+    'matrix element times the vector entry; matvec_eq_sparse_matvec: LinearQubitOperator(a) x = '
+    'qubit_operator_sparse(a) x); parallel_matvec_matrix: the same for ParallelLinearQubitOperator and every '
+    'completion order; diagonal_sound covers the sum over the terms and diagonal_eq_sparse_diagonal ties it to the '
+    'diagonal of the sparse matrix',
     'truncated boson matrices: every column of a ladder word is proved against the truncated polynomial Spec, cut-off '
     'branch and mixed-radix index arithmetic included (boson_column_sound, boson_truncation_restricts, '
     'boson_index_bijection, boson_term_sound_partial), up to diag(sqrt(n!)) stated without square roots; the float '
